@@ -85,14 +85,15 @@ type Path struct {
 	Steps    int64
 	MaxSteps int64
 
-	Inputs    []InputRec
-	Forks     []int32 // values returned by ForkN, in order (for native replay)
-	Schedule  []int32 // engine-chosen schedule decisions (map order, events)
-	Reached   map[string]bool
-	Observed  []string
-	Notes     map[string]int
-	Violation *Violation
-	PanicMsg  string
+	Inputs           []InputRec
+	Forks            []int32 // values returned by ForkN, in order (for native replay)
+	Schedule         []int32 // engine-chosen schedule decisions (map order, events)
+	Reached          map[string]bool
+	Observed         []string
+	ObservedSymbolic bool // some observation had symbolic content (not comparable with a native run)
+	Notes            map[string]int
+	Violation        *Violation
+	PanicMsg         string
 
 	NDecisions   int
 	NSolver      int
